@@ -756,14 +756,22 @@ func (in *Interp) assertProp(c *Term, label string) {
 		nc := in.tt.Not(c)
 		var v Verdict
 		var model map[string]uint64
+		t0 := time.Now()
 		if c.IsConst() {
 			v, model, _ = in.check(nil, true)
 		} else {
 			v, model, _ = in.check(nc, true)
 		}
+		slowStrong := time.Since(t0) > 3*time.Second
 		weak := false
-		if ex := in.exact(c); v != Unsat && ex != c && !in.ex.exactBudget(label) {
+		if ex := in.exact(c); v != Unsat && ex != c && (slowStrong || !in.ex.exactBudget(label)) {
+			// the strong form alone already took seconds: the exact form and the model
+			// search would each cost as much again; keep the candidate as a weak one
 			weak = true
+			if v == Sat && model != nil {
+				r := in.tt.Eval(ex, model, map[int]*Term{})
+				weak = !(r.IsConst() && !r.BoolVal())
+			}
 		} else if v != Unsat && ex != c {
 			// the strong (congruence) form is not implied: decide the exact comparison.
 			// unsat: proven; sat: a real counterexample; unknown: keep the candidate
@@ -808,6 +816,9 @@ func (in *Interp) assertProp(c *Term, label string) {
 		}
 		if v != Unsat {
 			choice = 2
+			if !c.IsConst() && in.needsCong(c) {
+				choice = 3 // arithmetic-heavy: do not carry it in the path condition
+			}
 			model = in.withRanges(model)
 			cex := &Counterexample{Label: label, Kind: "assert", Values: model, Kinds: in.varKinds,
 				Trace: append([]int(nil), in.trace...), Notes: append([]string(nil), in.notes...), Harness: in.cfg.Name, Weak: weak}
